@@ -249,9 +249,9 @@ func judge(rt ev.TB, o *outcome) {
 		if !o.Exited {
 			ev.Fail(rt, part, "sighup/old-server-no-exit", "the old mosn did not exit within its drain (%s)", describe(o, &result{}))
 		}
-		if o.ExitCode != 0 {
-			ev.Fail(rt, part, fmt.Sprintf("sighup/old-server-exit-code:%d", o.ExitCode), "the old mosn exited with status %d (%s)", o.ExitCode, describe(o, &result{}))
-		}
+		// the exit status of the old server is not part of the property (it is 1 on the unchanged tree:
+		// stagemanager.Stop ends with os.Exit(1) whenever the previous state was not Running); recorded as a class only
+		ev.Class(part, fmt.Sprintf("old-server-exit-status:%d", o.ExitCode))
 	}
 	if len(inconclusive) > 0 {
 		rt.Fatalf("VERIF-INFRA (inconclusive) %s", strings.Join(inconclusive, "\n"))
